@@ -1,0 +1,72 @@
+//go:build verif
+
+// Contracts for the verification machinery in /verif (comment-only; excluded from normal builds).
+// Property C15 (partial: representability of integer constants). Mode bv (exact machine arithmetic: the
+// range tests rely on wrap-around of int64 shifts).
+//
+// The exact (arbitrary-precision) value of an integer constant x is modelled by three uninterpreted
+// functions of the constant: c_small(x) - the value lies in [-2^127, 2^127); c_val(x) - its 128-bit two's
+// complement value when small; c_neg(x) - it is negative. internal/constant is assumed to report them
+// faithfully (contracts below). The oracle is the definition of Go's integer types: a value is representable
+// in a signed type of n bits iff -2^(n-1) <= v <= 2^(n-1)-1, in an unsigned one iff 0 <= v <= 2^n-1.
+
+package types
+
+//@ spec (declare-fun c_small (Int Int) Bool)
+//@ spec (declare-fun c_neg (Int Int) Bool)
+//@ spec (declare-fun c_val (Int Int) (_ BitVec 128))
+//@ spec (declare-fun c_kind (Int Int) (_ BitVec 64))
+
+//@ spec in_s(v sbv128, bits uint64) bool := ite(bits == 8, -128 <= v && v <= 127, ite(bits == 16, -32768 <= v && v <= 32767,
+//@      ite(bits == 32, -(1 << 31) <= v && v <= (1 << 31) - 1, -(1 << 63) <= v && v <= (1 << 63) - 1)))
+//@ spec in_u(v sbv128, bits uint64) bool := ite(bits == 8, 0 <= v && v <= 255, ite(bits == 16, 0 <= v && v <= 65535,
+//@      ite(bits == 32, 0 <= v && v <= (1 << 32) - 1, 0 <= v && v <= (1 << 64) - 1)))
+// repr_int(kind, word, x): the exact value of x is representable in the basic integer type `kind` on a
+// target whose int/uint/uintptr have `word` bits
+//@ spec repr_int(k BasicKind, word uint64, small bool, v sbv128) bool :=
+//@      ite(k == UntypedInt, true,
+//@      ite(k == Int, small && in_s(v, word), ite(k == Int8, small && in_s(v, 8), ite(k == Int16, small && in_s(v, 16),
+//@      ite(k == Int32, small && in_s(v, 32), ite(k == Int64, small && in_s(v, 64),
+//@      ite(k == Uint || k == Uintptr, small && in_u(v, word), ite(k == Uint8, small && in_u(v, 8), ite(k == Uint16, small && in_u(v, 16),
+//@      ite(k == Uint32, small && in_u(v, 32), ite(k == Uint64, small && in_u(v, 64), false)))))))))))
+
+// ---- assumed: internal/constant (arbitrary precision arithmetic over math/big)
+//@ iface constant.Value.Kind
+//@   ensures result == constant.Kind(c_kind(recv))
+//@   pure
+//@ extern constant.ToInt
+//@   ensures c_kind(x) == uint64(constant.Int) ==> result == x
+//@   trusted
+//@ extern constant.Int64Val
+//@   ensures result1 == (c_small(x) && in_s(sbv128(c_val(x)), 64))
+//@   ensures result1 ==> sbv128(int64(result0)) == sbv128(c_val(x))
+//@   trusted
+//@ extern constant.BitLen
+//@   ensures result >= 0
+//@   ensures (result <= 32) == (c_small(x) && -(1 << 32) < sbv128(c_val(x)) && sbv128(c_val(x)) < (1 << 32))
+//@   ensures (result <= 64) == (c_small(x) && -(1 << 64) < sbv128(c_val(x)) && sbv128(c_val(x)) < (1 << 64))
+//@   trusted
+//@ extern constant.Sign
+//@   ensures (result >= 0) == !c_neg(x)
+//@   ensures c_small(x) ==> (c_neg(x) == (sbv128(c_val(x)) < 0))
+//@   trusted
+// word_bytes(): size in bytes of int, uint and uintptr on the configured target (4 or 8)
+//@ spec (declare-fun word_bytes () (_ BitVec 64))
+//@ func (*Config).sizeof
+//@   ensures result == int64(word_bytes()) && (result == 4 || result == 8)
+//@   trusted
+//@ func unreachable
+//@   requires false
+//@   noreturn
+
+//@ spec is_int_kind(k BasicKind) bool := k == Int || k == Int8 || k == Int16 || k == Int32 || k == Int64 || k == Uint || k == Uint8 || k == Uint16 || k == Uint32 || k == Uint64 || k == Uintptr || k == UntypedInt
+
+//@ func representableConst
+//@   requires typ != nil && check != nil && check.conf != nil
+//@   requires x != nil && c_kind(x) == uint64(constant.Int)
+//@   requires typ.info&IsInteger != 0 && is_int_kind(typ.kind)
+//@   ensures[exact] result == repr_int(typ.kind, word_bytes() * 8, c_small(x), sbv128(c_val(x)))
+//@   ensures[rounded] rounded != nil ==> *rounded == x
+//@   modifies *rounded
+//@   safe
+//@   property C15
